@@ -35,6 +35,9 @@ import (
 //          nosig  all RRSIGs stripped
 //          nodsig the denial records' RRSIGs stripped (SOA still signed)
 //          badsig the first denial RRset's signature damaged
+//          insec  as good, but the resolver holds NO DS for the zone (an insecure zone;
+//                 the root always has its trust anchor)
+//          insecnosig  no DS and no RRSIGs: an unsigned zone
 
 type authEnv struct {
 	key *dns.DNSKEY
@@ -99,6 +102,22 @@ func (o authOut) String() string {
 		return "servfail"
 	}
 	return fmt.Sprintf("ok ad=%s mark=%s agg=%s", vlib.B(o.ad), o.kind, vlib.B(o.agg))
+}
+
+func (o authOut) tags() string {
+	t := ""
+	if o.err == nil {
+		t += ",nt,auth-passed"
+		if o.ad {
+			t += ",auth-ad"
+		}
+		if o.agg {
+			t += ",auth-aggressive"
+		}
+	} else {
+		t += ",auth-refused"
+	}
+	return t
 }
 
 // runAuthority builds the signed response and runs authority(). ok=false: the
@@ -166,7 +185,7 @@ func runAuthority(signer, q name, t uint16, nx bool, variant string, denial []dn
 		first = false
 		sigs = append(sigs, sig)
 	}
-	if variant != "nosig" {
+	if variant != "nosig" && variant != "insecnosig" {
 		// RRSIGs interleaved the way servers send them is irrelevant to the code; append
 		ns = append(ns, sigs...)
 	}
@@ -182,7 +201,11 @@ func runAuthority(signer, q name, t uint16, nx bool, variant string, denial []dn
 	resp.SetRcode(req, rcode)
 	resp.Authoritative = true
 	resp.Ns = ns
-	got, proof, marked, aerr := resolver.VerifC02Authority(env.r, req, resp, env.ds, zone)
+	ds := env.ds
+	if variant == "insec" || variant == "insecnosig" {
+		ds = nil
+	}
+	got, proof, marked, aerr := resolver.VerifC02Authority(env.r, req, resp, ds, zone)
 	out.err = aerr
 	out.kind = "none"
 	if aerr == nil {
@@ -206,6 +229,13 @@ func runAuthority(signer, q name, t uint16, nx bool, variant string, denial []dn
 // exactErr / secure: the exact validator run directly on the same filtered set.
 func authOracle(out authOut, variant string, exactErr error, secure bool, fam string, foreignClass bool) string {
 	accepted := out.err == nil
+	if variant == "insec" || variant == "insecnosig" {
+		// nothing to validate against: whatever happens, no AD and no provenance
+		if accepted && (out.ad || out.marked) {
+			return "FAIL sig=auth/insecure-zone-authenticated"
+		}
+		return "ok"
+	}
 	if foreignClass && variant == "good" {
 		// an in-zone record of a class the (class IN) zone key cannot have signed
 		variant = "badsig"
@@ -255,19 +285,16 @@ func execAuthNsec(f []string) vlib.Res {
 	if !ok {
 		return vlib.Res{Impl: "unsignable", Tags: strings.ReplaceAll(authWhy, " ", "_")}
 	}
-	res := vlib.Res{Impl: out.String(), Tags: "auth," + variant}
+	res := vlib.Res{Impl: out.String(), Tags: "auth," + variant + out.tags()}
 	if t == dns.TypeRRSIG {
 		// verifyDNSSEC does not validate responses to RRSIG questions at all ("we don't
 		// need to verify rrsig questions"): passed on without AD; modelled, not judged
 		res.Oracle, res.Tags = "-", res.Tags+",rrsig-question,unjudged"
 		return res
 	}
-	if out.err == nil {
-		res.Tags += ",nt"
-	}
 	if dnssec.ValidateSigner(signer.pres(), q.pres()) != nil {
 		res.Oracle = "ok"
-		if out.err == nil && variant != "cd" {
+		if out.err == nil && variant != "cd" && variant != "insecnosig" {
 			res.Oracle = "FAIL sig=auth/foreign-signer-accepted"
 		}
 		return res
@@ -281,7 +308,7 @@ func execAuthNsec(f []string) vlib.Res {
 	} else {
 		verr = dnssec.VerifyNODATANSEC(question(q, t, dns.ClassINET, dns.RcodeSuccess), set)
 	}
-	res.Oracle = authOracle(out, variant, verr, true, "nsec", foreignClass(curRRs, signer))
+	res.Oracle = authOracle(out, rootVariant(signer, variant), verr, true, "nsec", foreignClass(curRRs, signer))
 	if res.Oracle == "ok" && out.err == nil && out.agg {
 		// Aggressive provenance only when the RFC 8198 classifier reaches the response's verdict
 		r1, e1 := dnssec.EvaluateAggressiveNSEC(dns.Question{Name: q.pres(), Qtype: t, Qclass: dns.ClassINET}, signer.pres(), set)
@@ -302,17 +329,14 @@ func execAuthNsec3(f []string) vlib.Res {
 	if !ok {
 		return vlib.Res{Impl: "unsignable", Tags: strings.ReplaceAll(authWhy, " ", "_")}
 	}
-	res := vlib.Res{Impl: out.String(), Tags: "auth3," + variant}
+	res := vlib.Res{Impl: out.String(), Tags: "auth3," + variant + out.tags()}
 	if t == dns.TypeRRSIG {
 		res.Oracle, res.Tags = "-", res.Tags+",rrsig-question,unjudged"
 		return res
 	}
-	if out.err == nil {
-		res.Tags += ",nt"
-	}
 	if dnssec.ValidateSigner(signer.pres(), q.pres()) != nil {
 		res.Oracle = "ok"
-		if out.err == nil && variant != "cd" {
+		if out.err == nil && variant != "cd" && variant != "insecnosig" {
 			res.Oracle = "FAIL sig=auth/foreign-signer-accepted"
 		}
 		return res
@@ -329,7 +353,7 @@ func execAuthNsec3(f []string) vlib.Res {
 	} else {
 		secure, verr = dnssec.VerifyNODATAForZoneWithWork(question(q, t, dns.ClassINET, dns.RcodeSuccess), set, signer.pres(), nil)
 	}
-	res.Oracle = authOracle(out, variant, verr, secure, "nsec3", foreignClass(curRR3, signer))
+	res.Oracle = authOracle(out, rootVariant(signer, variant), verr, secure, "nsec3", foreignClass(curRR3, signer))
 	if res.Oracle == "ok" && out.err == nil && out.agg {
 		r1, e1 := dnssec.EvaluateAggressiveNSEC3(dns.Question{Name: q.pres(), Qtype: t, Qclass: dns.ClassINET}, signer.pres(), set, nil)
 		want := dns.RcodeSuccess
@@ -350,4 +374,17 @@ func foreignClass(rrs []dns.RR, signer name) bool {
 		}
 	}
 	return false
+}
+
+// rootVariant: the root zone is never insecure (its trust anchor is the DS).
+func rootVariant(signer name, variant string) string {
+	if len(signer) == 0 {
+		switch variant {
+		case "insec":
+			return "good"
+		case "insecnosig":
+			return "nosig"
+		}
+	}
+	return variant
 }
